@@ -188,9 +188,49 @@ def execute_top(case):
     return ok(labels=labels, nontrivial=True)
 
 
+def odd_list_cases():
+    """FCB / FDB lists with an empty element (a blank after a comma, a trailing comma, two commas): whatever the tool
+    makes of them, the statements behind them sit where the listing says"""
+    for d in ("FCB", "FDB"):
+        for operand in ("1, 2", "$12,$34,", "1,,2", ",1", "1,", "1,2,,", ", 1", "1 ,2"):
+            yield dict(odd=dict(lines=[" ORG $0E00\n", "START LDA #1\n", "TBL {} {}\n".format(d, operand), "AFTER LDX #AFTER\n", " FDB AFTER,TBL\n", "LAST RTS \n"]))
+
+
+def execute_odd(case):
+    lines = case["odd"]["lines"]
+    labels = ["odd_list_spelling"]
+    out = driver.assemble(list(lines))
+    if out.kind in ("CRASH", "HANG"):
+        return skip("crash/hang: judged by C13", labels=labels)
+    if out.kind == "DIAG":
+        return ok(labels=labels + ["rejected"], nontrivial=True)
+    origin = out.origin if out.origin is not None else 0
+    addr = origin
+    syms = dict(out.symbols)
+    for row, line in zip(out.rows, lines):
+        data = bytes.fromhex(row[1])
+        lab = line.split()[0] if not line.startswith((" ", "\t")) else None
+        if row[0] is not None and (data or lab) and row[0] != addr:
+            return viol("row {!r} is listed at ${:04X}, the bytes before it end at ${:04X}: {!r}".format(
+                row[2].strip()[:40], row[0], addr, [l.strip() for l in lines]), fid="C02:odd-address", labels=labels)
+        if lab and syms.get(lab) != addr:
+            return viol("label {} = {} in the symbol table, its statement is at ${:04X}: {!r}".format(lab, syms.get(lab), addr, [l.strip() for l in lines]),
+                        fid="C02:odd-symbol", labels=labels)
+        if out.image[addr - origin:addr - origin + len(data)] != data:
+            return viol("row {!r}: listing shows bytes {} but the image holds {}: {!r}".format(
+                row[2].strip()[:40], data.hex(), out.image[addr - origin:addr - origin + len(data)].hex(), [l.strip() for l in lines]),
+                fid="C02:odd-bytes", labels=labels)
+        addr += len(data)
+    if addr - origin != len(out.image):
+        return viol("the listing accounts for {} bytes, the image has {}: {!r}".format(addr - origin, len(out.image), [l.strip() for l in lines]),
+                    fid="C02:odd-size", labels=labels)
+    return ok(labels=labels, nontrivial=True)
+
+
 def enumerated(tier, seed):
     yield from alias_cases()
     yield from top_cases()
+    yield from odd_list_cases()
     # the sizes of PC-relative statements decide every later address: re-use C03's distance families
     from checks import c03
     for i, case in enumerate(c03.enumerated("quick", seed)):
@@ -290,7 +330,7 @@ def apply_negative(case):
 
 
 def render(case):
-    if case.get("alias") or case.get("top"):
+    if case.get("alias") or case.get("top") or case.get("odd"):
         return case
     if case.get("inc"):
         prog, files, main = with_includes(case)
@@ -304,6 +344,8 @@ def execute(case):
         return execute_alias(case)
     if case.get("top"):
         return execute_top(case)
+    if case.get("odd"):
+        return execute_odd(case)
     labels = []
     if case.get("inc"):
         prog, files, main = with_includes(case)
